@@ -104,7 +104,7 @@ try:
                     rec["result"] = "nocompile"
                 else:
                     try:
-                        r = subprocess.run(["go", "test", "-vet=off", "-count=1", ".", "./multiendpoint"], cwd=os.path.join(W, "grpcgcp"), env=GOENV, capture_output=True, text=True, timeout=240)
+                        r = subprocess.run(["go", "test", "-vet=off", "-count=1", ".", "./multiendpoint"], cwd=os.path.join(W, "grpcgcp"), env=GOENV, capture_output=True, text=True, timeout=45)
                         ok = r.returncode == 0
                     except subprocess.TimeoutExpired:
                         ok = False
